@@ -69,6 +69,10 @@ type EndpointShards struct {
 	// Due to the larger time, it is still possible that connection errors will occur while
 	// CDS is updated.
 	ServiceAccounts sets.String
+
+	// unlinked is set, under the lock, once this EndpointShards has been removed from the EndpointIndex.
+	// A writer that looked it up before the removal must not write to it; it has to look up again.
+	unlinked bool
 }
 
 // Keys gives a sorted list of keys for EndpointShards.Shards.
@@ -271,6 +275,7 @@ func (e *EndpointIndex) deleteServiceInner(shard ShardKey, serviceName, namespac
 	if !preserveKeys {
 		if len(epShards.Shards) == 0 {
 			delete(e.shardsBySvc[serviceName], namespace)
+			epShards.unlinked = true
 		}
 		if len(e.shardsBySvc[serviceName]) == 0 {
 			delete(e.shardsBySvc, serviceName)
@@ -316,20 +321,30 @@ func (e *EndpointIndex) UpdateServiceEndpoints(
 	}
 
 	pushType := IncrementalPush
-	// Find endpoint shard for this service, if it is available - otherwise create a new one.
-	ep, created := e.GetOrCreateEndpointShard(hostname, namespace)
-	// If we create a new endpoint shard, that means we have not seen the service earlier. We should do a full push.
-	if created {
-		if logPushType {
-			log.Infof("Full push, new service %s/%s", namespace, hostname)
-		} else {
-			log.Infof("Cache Update, new service %s/%s", namespace, hostname)
+	var ep *EndpointShards
+	for {
+		// Find endpoint shard for this service, if it is available - otherwise create a new one.
+		var created bool
+		ep, created = e.GetOrCreateEndpointShard(hostname, namespace)
+		// If we create a new endpoint shard, that means we have not seen the service earlier. We should do a full push.
+		if created {
+			if logPushType {
+				log.Infof("Full push, new service %s/%s", namespace, hostname)
+			} else {
+				log.Infof("Cache Update, new service %s/%s", namespace, hostname)
+			}
+			pushType = FullPush
 		}
-		pushType = FullPush
-	}
 
-	simhook.Yield("epindex.update.afterLookup", string(shard.Provider), string(shard.Cluster), namespace, hostname)
-	ep.Lock()
+		simhook.Yield("epindex.update.afterLookup", string(shard.Provider), string(shard.Cluster), namespace, hostname)
+		ep.Lock()
+		if !ep.unlinked {
+			break
+		}
+		// The shard was removed from the index (service deleted, shard removed or pruned) between the lookup
+		// and taking its lock. Writing to it would lose this update; look it up (or create it) again.
+		ep.Unlock()
+	}
 	defer ep.Unlock()
 	oldIstioEndpoints := ep.Shards[shard]
 	newIstioEndpoints, needPush := endpointUpdateRequiresPush(oldIstioEndpoints, istioEndpoints)
